@@ -1,7 +1,7 @@
-(* SnapRead/Props.v — theorems for C05 (snapshot reads are stable and identical across all access paths). *)
+(* SnapRead/ProofsTop.v — the proofs of the theorems restated in Props.v. *)
 From Verif Require Import Base.Lex SnapRead.Model SnapRead.ModelRead SnapRead.ProofsOrd SnapRead.ProofsList
   SnapRead.ProofsScanF SnapRead.ProofsScanR SnapRead.ProofsScanLoop SnapRead.ProofsScanLoopR
-  SnapRead.ProofsCache SnapRead.ProofsRead SnapRead.ProofsTerm SnapRead.ProofsMove SnapRead.ProofsTop.
+  SnapRead.ProofsCache SnapRead.ProofsRead SnapRead.ProofsTerm SnapRead.ProofsMove.
 
 (* For every truth (ascending keys), every snapshot ts, all bounds (empty = unbounded; even lo > hi),
    every batch size (0 and 1 are replaced by the default as in newScanner), key-only or not, EVERY
@@ -12,7 +12,7 @@ From Verif Require Import Base.Lex SnapRead.Model SnapRead.ModelRead SnapRead.Pr
    key is repeated or skipped.  Under key-only the keys are compared (canon).
    Reverse scans from the end of the key space (hi = []) are covered for every layout sequence
    (LocateEndKey("") returns the last region since 0dbaf7e; formerly refuted, F08b). *)
-Theorem C05_scan_complete :
+Lemma C05_scan_complete_proof :
   forall (T : truth) (ts : N) (lo hi : key) (B : nat) (ko rv : bool)
          (lay : nat -> layout) (lk : nat -> list key) (P : list key),
     (B < 2 ^ 32)%nat ->     (* the Limit field of the scan request is uint32: see docs, batch sizes above are a defect *)
@@ -21,14 +21,17 @@ Theorem C05_scan_complete :
     exists out,
       scan (length P + length T + 2) B ko ts T lay lk lo hi rv = Done out /\
       map (canon ko) out = map (canon ko) (if rv then rev (expected ts lo hi T) else expected ts lo hi T).
-Proof. exact C05_scan_complete_proof. Qed.
-Print Assumptions C05_scan_complete.
+Proof.
+  intros T ts lo hi B ko rv lay lk P _ HT Hlay Hrv. destruct rv.
+  - apply scan_reverse_complete; auto.
+  - apply scan_forward_complete; assumption.
+Qed.
 
 (* get / batch get / scan / reverse scan all equal read_at on the final truth of the world
    (committed writes plus what the leftover locks of committed transactions will become),
-   whatever locks are met, whatever region errors / re-splits happen: for EVERY fuel an answer that
-   comes back is right (the total statement with the fuel bound is C05_reads_total; the scans are total here). *)
-Theorem C05_paths_agree :
+   whatever locks are met, whatever region errors / re-splits happen, for every fuel (partial
+   correctness for the two fuelled read loops; the scans also terminate). *)
+Lemma C05_paths_agree_proof :
   forall (w : world) (ts : N),
     txs_ok (w_txns w) ts ->
     let T := final_truth w in
@@ -43,15 +46,30 @@ Theorem C05_paths_agree :
         forall lo hi B ko lay lk P, (forall i, incl (lay i) P) ->
         exists out, scan (length P + length T + 2) B ko ts T lay lk lo hi true = Done out /\
                     map (canon ko) out = map (canon ko) (rev (expected ts lo hi T))).
-Proof. exact C05_paths_agree_proof. Qed.
-Print Assumptions C05_paths_agree.
+Proof.
+  intros w ts Htx T.
+  set (Fin := fun k => final_ws (w_txns w) (k_get (w_keys w) k)).
+  assert (Hinv : inv ts Fin (w, [])).
+  { split; [exact Htx|]. split; [intros t []|intros k; reflexivity]. }
+  assert (Hread : forall k, read_at ts k T = vis (Fin k) ts).
+  { intros k. unfold read_at, T. rewrite writes_of_final. reflexivity. }
+  split; [|split; [|split]].
+  - intros fuel k o w' rs' H. rewrite Hread. eapply get_correct; eassumption.
+  - intros fuel ev L0 keys res w' rs' H k v. unfold batch_get in H.
+    destruct (bget_correct ts Fin _ _ _ _ _ _ _ _ _ _ Hinv H) as (_ & B2 & B3).
+    rewrite Hread. split.
+    + intros Hr. destruct (B2 _ _ Hr) as [[]|[Hk Hv]]. split; [apply (group_keys_mem Fin L0 keys k); exact Hk|exact Hv].
+    + intros [Hk Hv]. apply B3; [apply (group_keys_mem Fin L0 keys k); exact Hk|exact Hv].
+  - intros HT lo hi B ko lay lk P Hlay. apply scan_forward_complete; assumption.
+  - intros HT Hnn lo hi B ko lay lk P Hlay. apply scan_reverse_complete; assumption.
+Qed.
 
 (* Termination of the two fuelled read loops.  Environment assumption (part of the world): a live
    transaction answers "alive" to finitely many status checks (TAlive n) and is finished afterwards,
    or its min commit ts can be pushed; [patience] is the total number of such waiting rounds.  The
    region-error schedule contains at most E errors.  get needs patience + 2 rounds; batch get needs
    E * (2|keys| + 1) + patience + 2|keys| + 1. *)
-Theorem C05_reads_terminate :
+Lemma C05_reads_terminate_proof :
   forall (w : world) (ts : N),
     txs_ok (w_txns w) ts ->
     (forall fuel k, (patience (w_txns w) + 2 <= fuel)%nat ->
@@ -59,15 +77,26 @@ Theorem C05_reads_terminate :
     (forall fuel ev L0 keys E, bounded_errs ev 0 E ->
         (E * (2 * length keys + 1) + patience (w_txns w) + 2 * length keys < fuel)%nat ->
         exists res w' rs', batch_get fuel ev L0 w ts keys = (Some res, w', rs')).
-Proof. exact C05_reads_terminate_proof. Qed.
-Print Assumptions C05_reads_terminate.
+Proof.
+  intros w ts Htx.
+  set (Fin := fun k => final_ws (w_txns w) (k_get (w_keys w) k)).
+  assert (Hinv : inv ts Fin (w, [])).
+  { split; [exact Htx|]. split; [intros t []|intros k; reflexivity]. }
+  split.
+  - intros fuel k Hf. eapply get_terminates; eassumption.
+  - intros fuel ev L0 keys E Herr Hf. unfold batch_get.
+    destruct (group_keys_props L0 keys) as [G1 G2].
+    eapply (bget_terminates ts (length keys)); [exact Hinv|exact Herr|exact G1|rewrite G2; lia|].
+    pose proof (nblocked_le ts (w, []) (concat (group_keys L0 keys))) as H1. rewrite G2 in H1.
+    pose proof (concat_nonempty_len _ G1) as H2. rewrite G2 in H2. lia.
+Qed.
 
 (* Every point read returns and returns the truth: under the environment assumption of
    C05_reads_terminate (finitely many waiting rounds = patience; at most E region errors and
    whole-batch lock answers in the schedule) get and batch get END with an answer within the stated
    fuel, and the answer is read_at on the final truth — whatever locks are met, whatever re-splits and
    whole-batch lock answers happen. *)
-Theorem C05_reads_total :
+Lemma C05_reads_total_proof :
   forall (w : world) (ts : N),
     txs_ok (w_txns w) ts ->
     let T := final_truth w in
@@ -77,13 +106,21 @@ Theorem C05_reads_total :
         (E * (2 * length keys + 1) + patience (w_txns w) + 2 * length keys < fuel)%nat ->
         exists res w' rs', batch_get fuel ev L0 w ts keys = (Some res, w', rs') /\
                            forall k v, In (k, v) res <-> In k keys /\ read_at ts k T = Some v).
-Proof. exact C05_reads_total_proof. Qed.
-Print Assumptions C05_reads_total.
+Proof.
+  intros w ts Htx T.
+  destruct (C05_reads_terminate_proof w ts Htx) as [Tg Tb].
+  destruct (C05_paths_agree_proof w ts Htx) as (Pg & Pb & _).
+  split.
+  - intros fuel k Hf. destruct (Tg fuel k Hf) as (o & w' & rs' & Hg).
+    exists o, w', rs'. split; [exact Hg|]. exact (Pg fuel k o w' rs' Hg).
+  - intros fuel ev L0 keys E He Hf. destruct (Tb fuel ev L0 keys E He Hf) as (res & w' & rs' & Hb).
+    exists res, w', rs'. split; [exact Hb|]. exact (Pb fuel ev L0 keys res w' rs' Hb).
+Qed.
 
 (* resolveLocks' decision: Ignore only if rolled back, committed above the caller's ts, or min
    commit ts pushed; Access only if committed at or below ts; a finished transaction is never
    waited for; the store ignores locks with start > ts and pessimistic / lock-only locks. *)
-Theorem C05_classify_sound :
+Lemma C05_classify_sound_proof :
   forall (for_read : bool) (s : txn_status) (ts : N),
     (classify for_read s ts = Ignore ->
        is_rolled_back s = true \/ (is_committed s = true /\ ts < st_commit s) \/ is_pushed s = true) /\
@@ -91,21 +128,27 @@ Theorem C05_classify_sound :
     ((is_rolled_back s = true \/ (is_committed s = true /\ st_ttl s = 0)) -> classify for_read s ts <> Wait) /\
     (forall l rs, ts < l_start l -> blocks l ts rs = false) /\
     (forall l rs, l_kind l = LPess \/ l_kind l = LLock -> blocks l ts rs = false).
-Proof. exact C05_classify_sound_proof. Qed.
-Print Assumptions C05_classify_sound.
+Proof.
+  intros fr s ts. destruct (classify_sound fr s ts) as (H1 & H2 & H3).
+  split; [exact H1|]. split; [exact H2|]. split; [exact H3|]. split.
+  - intros l rs. apply later_lock_ignored.
+  - intros l rs. apply pessimistic_never_blocks.
+Qed.
 
 (* any interleaving of Get / BatchGet / SetSnapshotTS — including calls that FAIL after part of their
    keys were read — on a snapshot with the cache returns what the same program returns without a
    cache; a failed call leaves the snapshot (cache and version) exactly as it was, so it caches
    nothing, not even the pairs it did read; nothing is cached while the version is the max timestamp *)
-Theorem C05_cache_transparent :
+Lemma C05_cache_transparent_proof :
   forall (rd : N -> key -> option value) (ops : list cop) (ts : N),
     c_run rd (mkSnap ts None) ops = u_run rd ts ops /\
     (version (c_final rd (mkSnap ts None) ops) = maxts -> cached (c_final rd (mkSnap ts None) ops) = None) /\
     (forall s k, c_step rd s (CGetErr k) = (RErr, s)) /\
     (forall s ks got, c_step rd s (CBatchErr ks got) = (RErr, s)).
-Proof. exact C05_cache_transparent_proof. Qed.
-Print Assumptions C05_cache_transparent.
+Proof.
+  intros rd ops ts. destruct (cache_transparent rd ops (mkSnap ts None) (fresh_ok rd ts)) as [H1 [_ H2]].
+  split; [exact H1|]. split; [exact H2|]. split; reflexivity.
+Qed.
 
 (* One snapshot object that remembers which transactions it ignores (resolvedLocks), read by a
    program of Gets interleaved with SetSnapshotTS in BOTH directions and with lock-state changes (the
@@ -113,81 +156,17 @@ Print Assumptions C05_cache_transparent.
    moment, on the final truth.  SetSnapshotTS clears the cache and the ignored set on every call;
    environment assumption at a move (p_env): transactions still alive and pushable can only commit
    above the new timestamp. *)
-Theorem C05_ts_moves :
+Lemma C05_ts_moves_proof :
   forall (w : world) (ts : N) (fuel : nat) (ops : list pop),
     txs_ok (w_txns w) ts ->
     let Fin := fun k => final_ws (w_txns w) (k_get (w_keys w) k) in
     let st := (w, mkRS ts None []) in
     p_env fuel st ops -> p_right Fin fuel st ops.
-Proof. exact C05_ts_moves_proof. Qed.
-Print Assumptions C05_ts_moves.
-
-(* ---------------------------------------------------------------- non-vacuity *)
-(* a world with every kind of leftover lock; ts = 50 *)
-Definition ex_world : world :=
-  mkWorld
-    [ ([97], mkKs [(10, Put [1])] (Some (mkLock 20 (LPut [2]))));      (* a: secondary of txn 20, committed at 30 *)
-      ([98], mkKs [(10, Put [3])] (Some (mkLock 40 LDel)));            (* b: txn 40 rolled back *)
-      ([99], mkKs [] (Some (mkLock 45 (LPut [4]))));                    (* c: txn 45 alive, finishes committed at 60 *)
-      ([100], mkKs [(12, Put [5])] (Some (mkLock 47 LPess)));           (* d: pessimistic *)
-      ([101], mkKs [(12, Put [6])] (Some (mkLock 70 (LPut [7]))));      (* e: later transaction *)
-      ([102], mkKs [(12, Put [8])] (Some (mkLock 48 (LPut [9])))) ]     (* f: txn 48 pushable *)
-    [ (20, TFinished (FCommitted 30)); (40, TFinished FRolledBack); (45, TAlive 2 (FCommitted 60));
-      (47, TAlive 0 FRolledBack); (70, TAlive 5 (FCommitted 90)); (48, TPushed (FCommitted 80)) ].
-
-Example ex_world_ok : txs_ok (w_txns ex_world) 50.
 Proof.
-  intros t st. cbn [ex_world w_txns tx_get].
-  repeat (match goal with |- context [?a =? t] =>
-            let E := fresh "E" in destruct (a =? t) eqn:E;
-            [apply N.eqb_eq in E; subst t; intros H; inversion H; subst st;
-             split; [intros c Hc; inversion Hc; lia|intros f Hf; inversion Hf; cbn; lia]|] end).
-  discriminate.
+  intros w ts fuel ops Htx Fin st Henv. apply p_program_right; [|exact Henv].
+  split; [|split].
+  - cbn. split; [exact Htx|]. split; [intros t []|intros k; reflexivity].
+  - intros k v Hv. discriminate.
+  - reflexivity.
 Qed.
 
-Example ex_get_terminates :
-  map (fun k => fst (fst (get 10 ex_world [] 50 k))) [[97]; [98]; [99]; [100]; [101]; [102]; [103]]
-  = [Some (Some [2]); Some (Some [3]); Some None; Some (Some [5]); Some (Some [6]); Some (Some [8]); Some None].
-Proof. vm_compute. reflexivity. Qed.
-
-Example ex_batch_get_value :
-  match fst (fst (batch_get 20 (fun i => if Nat.eqb i 1 then EvRegionErr [[99]; [101]] else EvOk) [[100]] ex_world 50
-                      [[97]; [98]; [99]; [100]; [101]; [102]; [103]])) with
-  | Some res => length res = 5%nat
-  | None => False
-  end.
-Proof. vm_compute. reflexivity. Qed.
-
-(* a scan over 3 layouts that change between the calls, with a lock met in the second call *)
-Example ex_scan_splits :
-  scan 12 2 false 10 w_truth (fun i => match i with O => [[99]; [102]] | 1%nat => [[100]] | _ => [] end)
-       (fun i => match i with 1%nat => [[100]] | _ => [] end) [98] [103] false
-  = Done [([98], [118]); ([99], [118]); ([100], [118]); ([101], [118]); ([102], [118])].
-Proof. vm_compute. reflexivity. Qed.
-
-(* the former F08b witness, now a regression example: all of a..h in descending order *)
-Example ex_reverse_unbounded_three_regions :
-  scan 12 256 false 10 w_truth (fun _ => w_layout) (fun _ => []) [] [] true
-  = Done [([104], [118]); ([103], [118]); ([102], [118]); ([101], [118]); ([100], [118]); ([99], [118]); ([98], [118]); ([97], [118])].
-Proof. vm_compute. reflexivity. Qed.
-
-Example ex_reverse_bounded :
-  scan 12 3 false 10 w_truth (fun _ => w_layout) (fun _ => []) [99] [104] true
-  = Done [([103], [118]); ([102], [118]); ([101], [118]); ([100], [118]); ([99], [118])].
-Proof. vm_compute. reflexivity. Qed.
-
-Example ex_cache :
-  c_run (fun ts k => if ts <? 20 then Some [1] else None) (mkSnap 10 None)
-        [CGet [97]; CBatchErr [[97]; [98]] [[98]]; CGet [98]; CSetTS 30; CGet [97]; CSetTS maxts; CGet [97]]
-  = [RGet (Some [1]); RErr; RGet (Some [1]); RUnit; RGet None; RUnit; RGet None].
-Proof. vm_compute. reflexivity. Qed.
-
-(* reader at ts 50 meets the pushable transaction 48 (key f) and ignores it; the owner commits it at 80;
-   the SAME snapshot moved forward to 100 must see the new value (the ignored set is dropped), moved
-   back to 50 the old one *)
-Example ex_forward_move :
-  let run := fix run (st : world * rsnap) (ops : list pop) : list (option (option value)) :=
-               match ops with [] => [] | o :: r => let '(a, st') := p_step 10 st o in a :: run st' r end in
-  run (ex_world, mkRS 50 None []) [PGet [102]; PFinish 48; PSetTS 100; PGet [102]; PSetTS 50; PGet [102]]
-  = [Some (Some [8]); None; None; Some (Some [9]); None; Some (Some [8])].
-Proof. vm_compute. reflexivity. Qed.
